@@ -17,6 +17,7 @@ EXPLANATION = (
     "must release the peers - on today's tree it does not (known finding F-C08, nine call sites). R08.4 also: from the broadcast there is no path to the function's return or to the next round that avoids the missing-result check (every-round-is-checked). R08.7 a synchronisation request is honoured whenever there is a barrier: on every path through the recorder's sync closure (and its helper) that performs no Barrier::wait the path's conditions say that no barrier was given.")
 EXPLANATION += (' R08.8 (= R01.4) DeferStore::ONLY_INPUTS is exactly !needs_drop::<O>(), so no output with a destructor is dropped in the inputs-only loop before the end barrier.')
 EXPLANATION += (' R08.9 (= R06.5) every slot par_extend exposes is pre-filled with None before the broadcast, so a panicked thread is visible to the caller.')
+EXPLANATION += (' R08.10 (expansions) the generated runner hands Bencher::bench the function or a closure whose value is the call, so outputs are dropped by the Bencher after the end barrier.')
 NOT_DECIDED = ["global phase order over all interleavings (std::sync::Barrier semantics trusted)",
                "that ThreadAllocInfo::current() is Some on every benchmark thread (None only during TLS teardown)"]
 TRUSTED = ["std::sync::Barrier releases exactly when `n` threads wait"]
